@@ -15,7 +15,8 @@
 EXTENDS IsoMesh, TLC, Json, IOUtils
 
 CONSTANT NBlocks
-Traces == JsonDeserialize(IOEnv.TRACE_FILE).traces
+ASSUME TLCSet(1, JsonDeserialize(IOEnv.TRACE_FILE).traces)     \* parsed once, not once per worker
+Traces == TLCGet(1)
 
 VARIABLES blk, tid, idx, st
 vars == <<blk, tid, idx, st, last, bnd, seen>>
@@ -154,13 +155,14 @@ SweepCell ==
          p == Prob(t)
          cell == t.cells[idx + 1]
          patch == [j \in DOMAIN cell.fi |-> t.run.F[cell.fi[j]]]
-         nb == BndAfter(p, t.run.V, patch)
+         N == DirEdges(patch)
+         nb == BndWith(N)
          why == IF ~PatchLocal(p, t.run.V, cell.c, patch) THEN "REJECT SweepPatchLocal" ELSE
-                IF ~CanProcess(p, cell.c, patch) THEN "REJECT SweepEdgeOnce" ELSE
-                IF ~SweepInvAt(nb, Rank(p, cell.c)) THEN "REJECT SweepInvariant" ELSE
+                IF ~CanProcessE(p, cell.c, Len(patch), N) THEN "REJECT SweepEdgeOnce" ELSE
+                IF ~SweepInvAt(p, t.run.V, nb, Rank(p, cell.c)) THEN "REJECT SweepInvariant" ELSE
                 "OK"
      IN IF why = "OK"
-        THEN ProcessCellTo(p, cell.c, patch, nb) /\ idx' = idx + 1 /\ st' = st
+        THEN ProcessCellE(p, cell.c, Len(patch), N, nb) /\ idx' = idx + 1 /\ st' = st
         ELSE st' = "done" /\ Say(tid, why) /\ UNCHANGED <<idx, last, bnd, seen>>
   /\ UNCHANGED <<blk, tid>>
 SweepEnd ==
